@@ -67,6 +67,9 @@ type c08Scenario struct {
 	KeyBefore []bool   // per sender: chain key registered before anything arrives
 	Window    int
 	Cancel    bool
+	// AnnAfter: the senders' chain-key announcements are made after that many of their messages have been sealed
+	// (a late joiner): messages 1..AnnAfter can never be opened by this receiver, the later ones must be delivered
+	AnnAfter int
 }
 
 type c08World struct {
@@ -79,13 +82,14 @@ type c08World struct {
 	cancelled bool
 	arrivals map[string]int
 	errs    []string
+	annAfter int
 }
 
 func c08Build(seed int64, sc c08Scenario) vsync.Scenario {
 	return vsync.Scenario{
 		Name: sc.Name,
 		Setup: func(s *vsync.Sched) vsync.World {
-			w := &c08World{arrivals: map[string]int{}}
+			w := &c08World{arrivals: map[string]int{}, annAfter: sc.AnnAfter}
 			g := vDetGroup(seed, "G-c08")
 			gpk, _ := g.GetPubKey()
 			rss := c08SecretStore(seed, "R", "1", sc.Window)
@@ -99,11 +103,20 @@ func c08Build(seed int64, sc c08Scenario) vsync.Scenario {
 				sd.md, err = sd.ss.GetOwnMemberDeviceForGroup(g)
 				vmust(err)
 				sd.dev, _ = sd.md.Device().Raw()
-				ann, err := sd.ss.GetShareableChainKey(context.Background(), g, rmd.Member())
-				vmust(err)
-				rmem, _ := rmd.Member().Raw()
-				pl, _ := proto.Marshal(&protocoltypes.GroupDeviceChainKeyAdded{DevicePk: sd.dev, DestMemberPk: rmem, Payload: ann})
-				sd.keyEvt = &protocoltypes.GroupMetadataEvent{Metadata: &protocoltypes.GroupMetadata{EventType: protocoltypes.EventType_EventTypeGroupDeviceChainKeyAdded, Payload: pl}, Event: pl}
+				announce := func() {
+					ann, err := sd.ss.GetShareableChainKey(context.Background(), g, rmd.Member())
+					vmust(err)
+					rmem, _ := rmd.Member().Raw()
+					pl, _ := proto.Marshal(&protocoltypes.GroupDeviceChainKeyAdded{DevicePk: sd.dev, DestMemberPk: rmem, Payload: ann})
+					sd.keyEvt = &protocoltypes.GroupMetadataEvent{Metadata: &protocoltypes.GroupMetadata{EventType: protocoltypes.EventType_EventTypeGroupDeviceChainKeyAdded, Payload: pl}, Event: pl}
+				}
+				if sc.AnnAfter == 0 {
+					announce()
+				} else {
+					// the device's own chain exists from the activation of the group on (announcement to its own member)
+					_, err = sd.ss.GetShareableChainKey(context.Background(), g, sd.md.Member())
+					vmust(err)
+				}
 				for i := 1; i <= sc.Msgs; i++ {
 					body := fmt.Sprintf("s%d/%d", si, i)
 					msg, _ := proto.Marshal(&protocoltypes.EncryptedMessage{Plaintext: []byte(body), ProtocolMetadata: &protocoltypes.ProtocolMetadata{}})
@@ -114,6 +127,9 @@ func c08Build(seed int64, sc c08Scenario) vsync.Scenario {
 					vmust(err)
 					sd.entries = append(sd.entries, &entry.Entry{Payload: opb, Hash: cidOfBytes(opb), LogID: "c08"})
 					sd.payload = append(sd.payload, body)
+					if i == sc.AnnAfter {
+						announce()
+					}
 				}
 				w.senders = append(w.senders, sd)
 			}
@@ -193,8 +209,17 @@ func c08Build(seed int64, sc c08Scenario) vsync.Scenario {
 			}
 			var pending []string
 			for si, sd := range w.senders {
-				if n, ok := w.store.CacheSizeForDevicePK(sd.dev); ok && n > 0 {
-					pending = append(pending, fmt.Sprintf("s%d:%d", si, n))
+				// messages sealed before the announcement stay parked for ever, legitimately
+				legit := 0
+				for l, n := range w.arrivals {
+					var lsi, lmi int
+					fmt.Sscanf(l, "s%d/%d", &lsi, &lmi)
+					if lsi == si && lmi <= w.annAfter {
+						legit += n
+					}
+				}
+				if n, ok := w.store.CacheSizeForDevicePK(sd.dev); ok && n > legit {
+					pending = append(pending, fmt.Sprintf("s%d:%d", si, n-legit))
 				}
 			}
 			o := fmt.Sprintf("delivered=%v parked=%v queue=%d ldone=%v", order, pending, w.store.messagesQueue.VerifLen(), w.lDone)
@@ -234,6 +259,14 @@ func c08Build(seed int64, sc c08Scenario) vsync.Scenario {
 			for _, l := range labels {
 				// every sender's chain key has been registered by now and every counter is reachable (all messages of
 				// the sender have arrived), so every arrived message must have been delivered
+				var lsi, lmi int
+				fmt.Sscanf(l, "s%d/%d", &lsi, &lmi)
+				if lmi <= w.annAfter {
+					if got[l] > 0 {
+						return o, &vsync.Verdict{Sig: "C08/delivered-message-sealed-before-the-announcement", Desc: l}
+					}
+					continue
+				}
 				if got[l] == 0 {
 					return o, &vsync.Verdict{Sig: "C08/message-stays-parked", Desc: fmt.Sprintf("message %s arrived, its sender's chain key is registered, nothing else is running, and it was never delivered (parked per device: %v, delivered: %v)", l, pending, order)}
 				}
@@ -279,6 +312,11 @@ func TestVerifC08(t *testing.T) {
 	add(c08Scenario{Name: "2 messages parked, window of 1, key concurrent", Senders: 1, Msgs: 2, Arrivals: [][]string{{"s0/2", "s0/1"}}, KeyBefore: []bool{false}, Window: 1})
 	add(c08Scenario{Name: "duplicate arrival, key before", Senders: 1, Msgs: 1, Arrivals: [][]string{{"s0/1"}, {"s0/1"}}, KeyBefore: []bool{true}, Window: 4})
 	add(c08Scenario{Name: "two senders, keys concurrent", Senders: 2, Msgs: 1, Arrivals: [][]string{{"s0/1", "s1/1"}}, KeyBefore: []bool{false, false}, Window: 4})
+	// a late joiner: message 1 was sealed before the announcement (never openable here), message 2 after it; both
+	// are parked when the announcement is handled
+	add(c08Scenario{Name: "late joiner: 1 old + 1 new message parked, key concurrent", Senders: 1, Msgs: 2, Arrivals: [][]string{{"s0/1", "s0/2"}}, KeyBefore: []bool{false}, Window: 4, AnnAfter: 1})
+	add(c08Scenario{Name: "late joiner: new message first, then the old one, key concurrent", Senders: 1, Msgs: 2, Arrivals: [][]string{{"s0/2", "s0/1"}}, KeyBefore: []bool{false}, Window: 4, AnnAfter: 1})
+	add(c08Scenario{Name: "late joiner: 1 old + 1 new message, key before", Senders: 1, Msgs: 2, Arrivals: [][]string{{"s0/1", "s0/2"}}, KeyBefore: []bool{true}, Window: 4, AnnAfter: 1})
 	add(c08Scenario{Name: "1 message, key concurrent, cancel", Senders: 1, Msgs: 1, Arrivals: [][]string{{"s0/1"}}, KeyBefore: []bool{false}, Window: 4, Cancel: true})
 	bound, budget := 2, 6*time.Minute
 	if vrep.Thorough() {
